@@ -215,7 +215,7 @@ pub fn scenarios(tier: Tier) -> Vec<Scenario> {
         for rcv in [Rcv::Blocking, Rcv::Timed, Rcv::Polling] {
             let r = Race { shape, rcv };
             let name = format!("{:?}", r);
-            let bound = 3;
+            let bound = if tier.is_quick() { 3 } else { 4 };
             v.push(Scenario::new(name, sched_cfg(), bound, move || race_body(&r)));
         }
     }
